@@ -136,6 +136,11 @@ def _inputs(rng, R, C):
         ("single2d", "array", [[(r0, c0)]]),
         ("repeats_list", "list", [rw() for _ in range(k)]),
         ("scattered2d", "array", [[rw() for _ in range(w)] for _ in range(h)]),
+        # the same values in another memory layout (what numpy returns for column selections /
+        # transposed views): element (i, j) must still map to element (i, j)
+        ("block2d_fortran", "farray", [[(r, c) for c in range(ca, cb + 1)] for r in range(ra, rb + 1)]),
+        ("plate2d_fortran", "farray", plate),
+        ("scattered2d_fortran", "farray", [[rw() for _ in range(w)] for _ in range(h)]),
     ]
 
 
@@ -168,6 +173,8 @@ def _col(o):
 
 
 def _arg(ids, container):
+    if container == "farray":
+        return np.asfortranarray(np.array(ids))
     return np.array(ids) if container == "array" else ids
 
 
